@@ -8,7 +8,7 @@ META = {
             'oracle = reference line writer applied to the reference tree of C01 (so "same tree as HTML" holds by construction); '
             'C15-b: decorated templates (id/class/attributes/text, multi-line text) with a symbolic indent string and payload.',
     'bounds': {
-        'quick': 'skeletons of <=5 items x haml/pug/slim, repeat counts 1..3; 16 decorated templates x 3 syntaxes, indent = any '
+        'quick': 'skeletons of <=5 items x haml/pug/slim, repeat counts 1..3; 18 decorated templates x 3 syntaxes, indent = any '
                  'string of 1..2 spaces/tabs, payload 1..2 chars',
         'thorough': 'skeletons of <=6 items; indent 0..3 chars',
     },
@@ -158,6 +158,9 @@ DECO = [
     [N('div', 'i', ['c'], [], 'QZ1')],
     [N('ex', None, [], [], ['a', '', 'b'])],
     [N('ex', None, [], [], None, [N('ey', None, [], [], ['ab', '', '', 'c'], [N('ez')])])],
+    # three and more classes, one-letter names in the middle
+    [N('ex', None, ['a', 'b', 'c'])],
+    [N('div', 'i', ['col', 's', 'm', 'wide'], [], None, [N('ey', None, ['x', 'y', 'z', 'w'], [('t', 'QZ1')])])],
 ]
 
 
